@@ -150,7 +150,8 @@ CHECKS = {
  "C20": {
   "category": "proof",
   "text": "Proved: a link of N samples yields ceil(N/2) under half-rate (Blocking.v, all block sizes divisible by 8, all window sequences); positions advance "
-          "by two per sample; switching on is refused with the state untouched when a link has 64-sample blocks; totals unchanged; link tables are never modified by any op. "
+          "by two per sample; switching on is refused with the state untouched when a link has 64-sample blocks; totals unchanged; link tables are never modified by any op; for ANY page table a successful half-rate sample seek lands less than "
+          "one output sample (two positions) below the target, and its loops terminate. "
           "Per run: ov_halfrate toggled at random points of seek/read histories, every op compared with VFile.v and every read bit for bit with a packet-level decode "
           "that had the setting from the start; final linear read counts ceil(N/2) per link.",
   "note": VF_NOTE + " Streams whose beginning is trimmed by an odd count (all positions on the odd grid) are excluded from this check.",
